@@ -322,8 +322,10 @@ void ICACHE_FLASH_ATTR supla_esp_parse_proto_var(TrivialHttpParserVars *pVars,
     }
 
     if (pVars->current_var == VAR_PRO) {
-      pVars->pbuff[pVars->offset] = pdata[a];
-      pVars->offset++;
+      if (a < len) {
+        pVars->pbuff[pVars->offset] = pdata[a];
+        pVars->offset++;
+      }
 
       if (pVars->offset >= pVars->buff_size || a >= len - 1 ||
           pdata[a] == '&') {
